@@ -7,7 +7,7 @@ T1024 = 9223372036854774784          # 2^63 - 1024, the threshold of times_n_ii
 NANBITS = 0x7ff8000000000001
 
 BIN = ["+", "-", "*", "/", "//", "%", "**", ".+", ".-", ".*", "./", "&", "|", "^", "<<", ">>", ">>>", "roundm", "min", "max"]
-UN = ["neg", "pos", "~", "bitcount", "abs", "ceiling", "floor", "round", "sgn"]
+UN = ["neg", "pos", "~", "bitcount", "abs", "ceil", "floor", "round", "sgn"]
 TERN = ["madd", "msub", "mmul", "mexp"]
 OPC = {n: i for i, n in enumerate(BIN)}
 OPC.update({n: 100 + i for i, n in enumerate(UN)})
@@ -234,10 +234,10 @@ def oracle(op, args, obs):
         return want_int(~a)
     if op == "bitcount":
         return want_int(bin(a % 2 ** 64).count("1"))
-    if op in ("abs", "ceiling", "floor", "round", "sgn"):
+    if op in ("abs", "ceil", "floor", "round", "sgn"):
         if obs[0] != "int":
             return ("int-ness-not-preserved", "int")
-        r = {"abs": abs(a), "ceiling": a, "floor": a, "round": a, "sgn": (a > 0) - (a < 0)}[op]
+        r = {"abs": abs(a), "ceil": a, "floor": a, "round": a, "sgn": (a > 0) - (a < 0)}[op]
         if not in64(r):
             return (thru, "float 2^63 or an error value")
         return want_int(r, thru if abs(a) > 2 ** 53 else "other")
@@ -447,7 +447,8 @@ def run(ctx):
             ctx.count((op, args))
             r = oracle(op, args, o)
             if r is not None:
-                flagged.setdefault(r[0], []).append((i, r[1]))
+                # unknown failures are reported per operator (the class string stays "other")
+                flagged.setdefault(r[0] if r[0] not in ("other", "panic-other") else r[0] + ":" + op, []).append((i, r[1]))
     ctx.cov["oracle"] = {"cases": len(cases), "flagged_by_class": {k: len(v) for k, v in sorted(flagged.items())}}
     npanic = sum(1 for o in obs if o[0] == "panic")
     ctx.cov["panics_observed"] = npanic
@@ -459,11 +460,11 @@ def run(ctx):
         i, exp = min(lst, key=lambda t: (size(t[0]), t[0]))
         op, args = cases[i]
         reported_idx.add(i)
-        ctx.violation(dict(describe(op, args, obs[i], exp), **{"class": cls, "broken": "property oracle", "witnesses_in_class": len(lst)}))
+        ctx.violation(dict(describe(op, args, obs[i], exp), **{"class": cls.split(":")[0], "broken": "property oracle", "witnesses_in_class": len(lst)}))
     for i in (0, len(cases) // 3, len(cases) // 2, len(cases) - 1):
         ctx.sample(describe(cases[i][0], cases[i][1], obs[i]))
     if not ok:
-        other = [c for c in flagged if c in ("other", "panic-other")]
+        other = [c for c in flagged if c.split(":")[0] in ("other", "panic-other")]
         ctx.violation({"broken": why, "note": "proof obligations of C07/Props.v no longer check"}, found_input=bool(other))
         return
     # ---- correspondence in Coq: stratified sample + every oracle-flagged case (capped)
